@@ -1,6 +1,6 @@
 /-
   C04 — property theorems, second file: the concrete witnesses (negations of unguarded clauses =
-  the known findings, and the regression instance of the repaired C04-F9), evaluated on the model by
+  the known findings, and the regression instances of the repaired C04-F9 / C04-F13), evaluated on the model by
   `decide`. Each is replayed on the real code through `corpus/C04/`.
 -/
 import Kopf.Props.C04
@@ -180,6 +180,34 @@ theorem multi_marker_restored_witness :
     ∧ diffLen (essence cfgTransitional [["metadata", "annotations"]] before)
         (essence cfgTransitional [["metadata", "annotations"]] after) = some 1
     ∧ diffLen (essence cfgTransitional [["status"]] before) (essence cfgTransitional [["status"]] after) = some 0 := by
+  decide
+
+/-! ## regressions of the variants before kopf 571b1b2 (finding C04-F13, fixed) -/
+
+def isTypeError (x : Except Err J) : Bool :=
+  match x with
+  | .error .typeError => true
+  | _ => false
+
+def hiddenBody : J :=
+  .obj [("kind", .str "KopfExample"), ("metadata", .obj [("name", .str "obj")]),
+        ("spec", .obj [("a", .str "a-string-where-a-mapping-was-expected"), ("n", .num 5)])]
+
+/-- the former witness of C04-F13 (a): a handler on `spec.a.b`, an object whose `spec.a` is a string. The one
+    unguarded `dicts.cherrypick` over all handlers' fields (the variant before 571b1b2) raised TypeError —
+    the object was never processed; today the essence is built, and it is the essence without that handler. -/
+theorem hidden_field_raised_witness :
+    isTypeError (cherrypick hiddenBody (.obj [("spec", .obj [("n", .num 5)])]) [["spec", "n"], ["spec", "a", "b"]]) = true
+    ∧ diffLen0 (essence cfgDefault0 [["spec", "a", "b"]] hiddenBody) (essence cfgDefault0 [] hiddenBody) = some 0 := by
+  decide
+
+/-- the former witness of C04-F13 (b): `status.kopf` overwritten with a scalar, a handler on `status`. The two
+    unguarded `dicts.remove` of `StatusProgressStorage.clear` (`remove2`, the variant before 571b1b2) raised
+    TypeError; today the removals are skipped — nothing of the framework's is there — and the essence is built. -/
+theorem hidden_status_field_raised_witness :
+    let e : J := .obj [("spec", .obj [("n", .num 5)]), ("status", .obj [("kopf", .str "overwritten")])]
+    isTypeError (liftD (remove2 e ["status", "kopf", "progress"] ["status", "kopf", "dummy"])) = true
+    ∧ diffLen0 (clearLeaf e (.status ["status", "kopf", "progress"] ["status", "kopf", "dummy"])) (.ok e) = some 0 := by
   decide
 
 end Kopf.C04
